@@ -3,6 +3,8 @@ import DimodProofs.LpVars
 import DimodProofs.LpLex
 import DimodProofs.LpLexer
 import DimodProofs.LpNum
+import DimodProofs.LpDec
+import DimodProofs.LpClosed
 
 /-! # C12 — LP text round trip preserves the constrained model or is refused
 
@@ -13,18 +15,22 @@ composed with `cylp.pyx:model_to_cqm` (0.5 factor on objective quadratic terms, 
 from the Binary / General sections).  Tied to the code on every run by `harness/props/c12.py`: the
 model's text equals `lp.dumps` byte for byte and the model's reading of that text equals `lp.loads`.
 
-Scope of the theorems: `lp_roundtrip` is stated on the token stream (`readToks ∘ dumpToks`), `lp_roundtrip_text`
-on the TEXT: `Lp.loads (Lp.dumps m) = normCqm m`, through rendering, `_WidthLimitedFile`'s line breaks, the
-blank/newline word splitter and the word→token lexer.  What remains an oracle is stated per token by `TokTextOK`:
-(a) the text of a number is a blank-free word and parses back to the number's value — `showAbs b ↦ |b|` for
-coefficients, `showFloat q ↦ q` for right-hand sides and bounds; this is *proved* for integral coefficients
-(`integer_coefficients_read_back`), assumed for non-integral decimals (Python's `repr(float)` ↔ decimal parsing;
-exercised by the correspondence run on dyadic values); (b) a variable name is not one of the 17 words of the
-writer's grammar (`classify s = other`; a label `_validate_label` accepts is already blank-free:
-`valid_label_is_word`).  The C++ parser `extern/filereaderlp` itself is not modelled: its agreement with this
-reader on writer output is established by the correspondence run only.  Interpretation (DESIGN §1): the LP
-grammar has no constant on a constraint's left side, the writer emits `lhs − c  sense  rhs − c`; hence
-`activity = lhs(x) − rhs` is what is preserved, and `rhs`, `lhs` individually when `c = 0`. -/
+Scope of the theorems: `lp_roundtrip` is stated on the token stream (`readToks ∘ dumpToks`), `lp_roundtrip_text` and
+`lp_roundtrip_text_closed` on the TEXT: `Lp.loads (Lp.dumps m) = normCqm m`, through rendering, number formatting,
+`_WidthLimitedFile`'s line breaks, the blank/newline word splitter and the word→token lexer.
+`lp_roundtrip_text` takes the per-token text oracle `TokTextOK` as a hypothesis; `lp_roundtrip_text_closed` *derives* it:
+(a) numbers — every coefficient, right-hand side and bound with a terminating decimal expansion of at most 60 places
+(every dyadic rational in particular: `dyadic_is_decimal`) is printed as a blank-free word that parses back to exactly
+that number (`decimal_numbers_read_back`); what stays outside is that Python's `repr(float)` prints that positional
+expansion (exponent notation for |x| ≥ 1e16 or < 1e-4 is not modelled; `±1e+30` is) — the byte-for-byte comparison
+with `lp.dumps` on every run covers it; (b) labels — a label `_validate_label` accepts is a blank-free word
+(`valid_label_is_word`) and, over the tables regenerated from `dimod/lp.py`, is none of the 17 words of the writer's
+grammar except the string `To` (`valid_label_not_grammar_word`; this needs `subject` among the reserved words: before
+the repair of D59 a variable called `Subject` passed the validation), and `To` is excluded by hypothesis (the grammar
+reads it as a keyword only directly after `Subject`).  The C++ parser `extern/filereaderlp` itself is not modelled: its
+agreement with this reader on writer output and on near-miss label layouts is established by the correspondence run.
+Interpretation (DESIGN §1): the LP grammar has no constant on a constraint's left side, the writer emits
+`lhs − c  sense  rhs − c`; hence `activity = lhs(x) − rhs` is what is preserved, and `rhs`, `lhs` individually when `c = 0`. -/
 
 namespace C12
 open Lp
@@ -60,6 +66,30 @@ theorem wrap_invisible_to_reader (m : LCqm) (ts : List Tok) (h : dumpToks m = .o
 theorem lp_roundtrip_text (m : LCqm) (text : String) (h : dumps m = .ok text)
     (hok : ∀ ts, dumpToks m = .ok ts → ∀ t ∈ ts, TokTextOK t) : loads text = some (normCqm m) :=
   loads_dumps m text h hok
+
+/-- **lp_roundtrip on text, closed**: no oracle — for every model the writer accepts whose numbers are terminating
+    decimals (`NumsOK`: coefficients, doubled objective quadratic coefficients, right-hand sides minus lhs constants,
+    bounds) and whose expressions mention only its own variables, none called `To` (`NamesOK`), the specification
+    reader reads the text `lp.dumps` produces back as the model's normal form -/
+theorem lp_roundtrip_text_closed (m : LCqm) (text : String) (h : dumps m = .ok text) (hn : NumsOK m) (hl : NamesOK m) :
+    loads text = some (normCqm m) :=
+  loads_dumps_closed m text h hn hl
+
+/-- number formatting ∘ number parsing, for every terminating decimal of at most 60 places: the right-hand side /
+    bound text `repr(float(q))` and the coefficient text `_abs(b)` are blank-free words and parse back to `q`, `|b|` -/
+theorem decimal_numbers_read_back (q : Rat) (hd : Dec60 q) :
+    (Word (showFloat q) ∧ parseDec (showFloat q) = some q) ∧ (Word (showAbs q) ∧ parseDec (showAbs q) = some (absQ q)) :=
+  ⟨parseDec_showFloat q hd, parseDec_showAbs q hd⟩
+
+/-- every dyadic rational `k / 2^j`, `j ≤ 60` (every value the harness generates, every float32-exact bias of moderate
+    size) has such an expansion -/
+theorem dyadic_is_decimal (q : Rat) (j : Nat) (hj : j ≤ 60) (h : (q * (2 : Rat) ^ j).den = 1) : Dec60 q :=
+  dec60_of_dyadic q j hj h
+
+/-- a label `_validate_label` accepts is none of the 17 words of the writer's grammar, except the string `To`
+    (over the regenerated reserved-word table; false before `subject` was added to it — D59) -/
+theorem valid_label_not_grammar_word (s : String) (h : validLabel (.str s) = true) (hne : s ≠ "To") : classify s = .other :=
+  classify_other_of_valid s h hne
 
 /-- the two halves separately: the words of the dumped text are the words of the tokens, and the lexer turns
     those words back into exactly the writer's tokens -/
@@ -157,6 +187,11 @@ example :
            [⟨.str "c0", ⟨[(.str "x", 1), (.str "y", 1)], [], 1⟩, .le, 3, false⟩]⟩
       = .ok "Minimize\n obj: + 2 x - 0.5 y + [ + 1.5 x * y ]/2 + 1 \n\nSubject To \n c0: + 1 x + 1 y  <= 2.0\n\nBounds\n 0.0 <= x <= 5.0\n\nBinary\n y\nGeneral\n x\nEnd" := by
   decide +kernel
+
+example : validLabel (.str "Subject") = false ∧ validLabel (.str "such") = false ∧ validLabel (.str "To") = true := by
+  decide +kernel
+
+example : Dec60 (3 / 8) := ⟨3, by decide, by decide +kernel⟩
 
 example : validLabel (.str "x1") = true ∧ validLabel (.str "1x") = false ∧ validLabel (.str "a b") = false := by
   decide +kernel
